@@ -34,6 +34,7 @@ pub struct CampaignOut {
     pub build_s: f64,
     pub run_s: f64,
     pub jobs_crashed: usize,
+    pub slow_or_timeout: usize,
     pub notes: Vec<String>,
 }
 
@@ -166,7 +167,20 @@ pub fn run(c: &Campaign, seed: u64) -> Result<CampaignOut, String> {
             out.notes.push(format!("job {j} ended with {status}: {}", tail.into_iter().rev().collect::<Vec<_>>().join(" | ")));
         }
         out.corpus.extend(read_dir_files(&work.join(format!("corpus-{j}"))));
-        out.crashes.extend(read_dir_files(&work.join(format!("crash-{j}"))));
+        // libFuzzer also writes slow-unit-*, timeout-* and oom-* files next to crash-*: only crash-* means the
+        // target's oracle (or a sanitizer) failed; the others are kept as ordinary inputs to re-judge
+        let adir = work.join(format!("crash-{j}"));
+        let mut names: Vec<PathBuf> = std::fs::read_dir(&adir).map(|r| r.filter_map(|e| e.ok()).map(|e| e.path()).filter(|p| p.is_file()).collect()).unwrap_or_default();
+        names.sort();
+        for n in names {
+            let Ok(bytes) = std::fs::read(&n) else { continue };
+            if n.file_name().and_then(|f| f.to_str()).is_some_and(|f| f.starts_with("crash-")) {
+                out.crashes.push(bytes);
+            } else {
+                out.slow_or_timeout += 1;
+                out.corpus.push(bytes);
+            }
+        }
     }
     out.run_s = t1.elapsed().as_secs_f64();
     out.corpus.sort();
@@ -245,7 +259,7 @@ pub fn guided<P: Prop>(ctx: &mut Ctx, inner: &P, c: Campaign, decode: impl Fn(&[
                 ctx.extra.insert(
                     "coverage_guided_campaign".into(),
                     json!({"target": c.target, "sanitizer": c.sanitizer, "jobs": c.jobs, "runs_per_job": c.runs, "executions": out.execs, "edge_coverage": out.cov, "features": out.features,
-                           "corpus_inputs_kept": out.corpus.len(), "inputs_saved_as_crash": out.crashes.len(), "jobs_ended_abnormally": out.jobs_crashed, "build_s": out.build_s.round(), "run_s": out.run_s.round(), "notes": out.notes}),
+                           "corpus_inputs_kept": out.corpus.len(), "inputs_saved_as_crash": out.crashes.len(), "slow_unit_or_timeout_inputs": out.slow_or_timeout, "jobs_ended_abnormally": out.jobs_crashed, "build_s": out.build_s.round(), "run_s": out.run_s.round(), "notes": out.notes}),
                 );
                 eprintln!("[{}] campaign {}: execs={} cov={} ft={} corpus={} crashes={} build={:.0}s run={:.0}s", ctx.id, c.target, out.execs, out.cov, out.features, out.corpus.len(), out.crashes.len(), out.build_s, out.run_s);
                 if out.jobs_crashed > 0 && out.crashes.is_empty() {
